@@ -16,16 +16,27 @@ func vCheckC28(paths []Path, refs []vRef, findAllIdentical bool, observeOrdered 
 	// expires first (one fork per comparison): the minimum of symbolic lexicographic times is hard
 	// for the solver in one piece and easy per case
 	earliest := make([]time.Time, len(refs))
+	// Within one segment all hop fields share the timestamp, so the earliest is the one with the
+	// smallest ExpTime (split on 8-bit comparisons); across segments the split is on the times.
 	for ri := range refs {
-		exps := refs[ri].expiries()
-		mi := 0
-		for h := 1; h < len(exps); h++ {
-			if exps[h].Before(exps[mi]) {
-				verif.Cover("expiry-order-split") // (also keeps the engine from if-converting the split)
-				mi = h
+		first := true
+		for pi := range refs[ri].parts {
+			part := &refs[ri].parts[pi]
+			mi := 0
+			for h := 1; h < len(part.hops); h++ {
+				if part.hops[h].exp < part.hops[mi].exp {
+					verif.Cover("expiry-order-split") // (also keeps the engine from if-converting the split)
+					mi = h
+				}
+			}
+			if first {
+				earliest[ri] = part.exps[mi]
+				first = false
+			} else if part.exps[mi].Before(earliest[ri]) {
+				verif.Cover("expiry-order-split-across-segments")
+				earliest[ri] = part.exps[mi]
 			}
 		}
-		earliest[ri] = exps[mi]
 	}
 	var sumMTU, sumW uint64
 	var sumExp int64
